@@ -165,6 +165,19 @@ def _readable(sock):
     return bool(sock.queue)
 
 
+class _EdgeRandom(random.Random):
+    """Swarm knob 'nonce_edges': message.PayloadNONCE draws its length with randrange(16, 256); return the boundaries often."""
+
+    def randrange(self, a, b=None, *rest):
+        if (a, b) == (16, 256) and not rest:
+            x = self.random()
+            if x < 0.35:
+                return 16
+            if x < 0.7:
+                return 255
+        return super().randrange(a, b, *rest)
+
+
 # ======================================================================================= node
 
 class Node:
@@ -307,7 +320,8 @@ class Node:
     def start(self):
         assert self.state in ('down',), self.state
         self.incarnation += 1
-        self.rnd = random.Random(f'{self.sys_seed}:{self.name}:{self.incarnation}:rnd')
+        cls = _EdgeRandom if self.world.scenario.get('knobs', {}).get('nonce_edges') else random.Random
+        self.rnd = cls(f'{self.sys_seed}:{self.name}:{self.incarnation}:rnd')
         self.ctr = 0
         self.state = 'running'
         self.death = None
